@@ -7,7 +7,7 @@ from pktgen import udp_frame, fragments
 
 class Prop(PropBase):
     pid = 'C13'
-    kernels = ['InputRaw_feedPacket']
+    kernels = ['InputRaw_feedPacket', 'InputPcap_copy', 'InputSock_copy']
     vo_targets = ['Props/Properties_C13.vo', 'Proofs/InputSafe.vo', 'Proofs/Layout.vo', 'Proofs/Eq_Copy.vo']
     prop_files = ['Props/Properties_C13.v']
     rule = ('ASan+UBSan build, real receive/decode threads. pcap files: records truncated by the snap length (caplen < len), frames shorter than the headers (0..60 bytes), '
